@@ -1361,7 +1361,8 @@ static int32_t write_literal(void *context, const char *text, int length, int wr
  */
 static int32_t write_uliteral(void *context, const UChar *text, int length, int wrap) {
     if (length < 0) {
-        length = u_countChar32(text, -1);
+        /* the output precision is expressed in code units, not code points */
+        length = u_strlen(text);
     }
 
     if (length == 0) {
@@ -1370,7 +1371,7 @@ static int32_t write_uliteral(void *context, const UChar *text, int length, int 
         int last_column = LAST_COLUMN(context);
         int32_t nchars;
 
-        if ((length + last_column) > LINE_LENGTH(context)) {
+        if ((u_countChar32(text, length) + last_column) > LINE_LENGTH(context)) {
             if (wrap == CIF_WRAP) {
                 if (write_newline(context)) {
                     last_column = 0;
@@ -1384,7 +1385,7 @@ static int32_t write_uliteral(void *context, const UChar *text, int length, int 
 
         nchars = u_fprintf(CONTEXT_UFILE(context), "%*.*S", length, length, text);
         if (nchars > 0) {
-            SET_LAST_COLUMN(context, last_column + nchars);
+            SET_LAST_COLUMN(context, last_column + u_countChar32(text, nchars));
         }
 
         return nchars;
